@@ -70,7 +70,7 @@ class Scenario(object):
         # connections of such a scenario come in over TCP - no socket credentials, another accept path; the bystanders stay on unix
         self.tcp_addr = None
         extra = ""
-        if rng.random() < 0.4:
+        if rng.random() < 0.4 and busproc.tcp_loopback_available():
             extra = ("  <listen>tcp:host=127.0.0.1,port=0</listen>\n  <auth>EXTERNAL</auth>\n  <auth>ANONYMOUS</auth>\n"
                      "  <allow_anonymous/>")
         self.daemon = busproc.Daemon(self.b, self.rundir, busproc.make_config("@SOCK@", limits=self.limits, extra=extra),
@@ -894,10 +894,12 @@ def run(tier, seed, replay=None, scale=1.0):
     total = int((128 if tier == "quick" else 2400) * scale)
     per = max(1, total // 16)
     nn = max(1, int((32 if tier == "quick" else 800) * scale))
-    shards = [(seed, i, per) for i in range(16)] + [("nonce", seed, i, max(1, nn // 8)) for i in range(8)]
+    tcp_ok = busproc.tcp_loopback_available()
+    r.extra["tcp_loopback_available"] = tcp_ok
+    shards = [(seed, i, per) for i in range(16)] + ([("nonce", seed, i, max(1, nn // 8)) for i in range(8)] if tcp_ok else [])
     for part in report.run_sharded(_worker, shards):
         r.merge(part)
-    if scale >= 1:
+    if scale >= 1 and tcp_ok:
         r.require("nonce-tcp:cases", 16)
         r.require("nonce-tcp:well-behaved-client-served", 10)
         r.require("nonce-tcp:wrong-nonce-turned-away", 5)
